@@ -13,6 +13,10 @@ pub enum Ty {
     Str,
     Struct(usize, usize),
     Enum(usize, usize),
+    /// closure type (int32) -> int32
+    Fun,
+    /// generic struct instantiated at int32: G[int32] (package, index into generics)
+    Gen(usize, usize),
 }
 
 #[derive(Clone, Debug)]
@@ -80,6 +84,16 @@ pub enum Expr {
     Inherent(usize, usize, Box<Expr>),               // pkg, inherent idx, receiver
     BoundVar,                                        // Tr::m(x) inside a bounded generic fn (method 0)
     ToString(Box<Expr>),                             // derived to_string
+    /// closure literal |q: int32| q + <body>  (body may use the enclosing variables)
+    MkClosure(Box<Expr>),
+    /// application of a closure-typed expression to an int32 argument
+    Apply(Box<Expr>, Box<Expr>),
+    /// { let fz<tag> = <closure expr>; fz<tag>(<arg>) }
+    LetApply(Box<Expr>, Box<Expr>, u32),
+    /// generic struct literal G { v: e } at T = int32
+    MkGen(usize, usize, Box<Expr>),
+    /// field v of a generic struct value
+    GenField(Box<Expr>),
 }
 
 #[derive(Clone, Debug, Default)]
@@ -93,6 +107,8 @@ pub struct Pkg {
     pub impls: Vec<ImplDef>,
     pub inherents: Vec<InherentDef>,
     pub fns: Vec<FnDef>,
+    /// generic structs `struct <name>[T] { v: T }`
+    pub generics: Vec<String>,
     /// extra raw text appended to the first file (used by error/layout variants)
     pub raw: String,
     /// extra raw text appended to the last file
@@ -133,7 +149,9 @@ impl GenCfg {
     }
 }
 
-const PKG_NAMES: [&str; 7] = ["Main", "Pa", "Pb", "Pc", "Pd", "Pe", "Pf"];
+// names share prefixes on purpose (Pa / Pab, Main / MainUtil): package identity must be the whole
+// name, never a textual prefix
+const PKG_NAMES: [&str; 7] = ["Main", "Pa", "Pab", "Pb", "MainUtil", "Pbc", "Pd"];
 
 // ---------------------------------------------------------------------------------------------
 // generation
@@ -156,8 +174,8 @@ fn visible_pkgs(proj: &Project, pkg: usize, imports: &[usize]) -> Vec<usize> {
 
 fn ty_nameable(t: &Ty, vis: &[usize]) -> bool {
     match t {
-        Ty::Int | Ty::Str => true,
-        Ty::Struct(p, _) | Ty::Enum(p, _) => vis.contains(p),
+        Ty::Int | Ty::Str | Ty::Fun => true,
+        Ty::Struct(p, _) | Ty::Enum(p, _) | Ty::Gen(p, _) => vis.contains(p),
     }
 }
 
@@ -177,7 +195,7 @@ fn gen_expr(p: &mut Prng, sc: &Scope, cur: &Pkg, want: &Ty, depth: u32) -> Expr 
         Ty::Int => {
             let mut choices: Vec<u32> = vec![0, 0, 1]; // literal, var
             if depth > 0 {
-                choices.extend([2, 2, 3, 4, 5, 6, 7, 8, 9]);
+                choices.extend([2, 2, 3, 4, 5, 6, 7, 8, 9, 10, 11]);
             }
             for _ in 0..6 {
                 match *p.pick(&choices) {
@@ -273,10 +291,72 @@ fn gen_expr(p: &mut Prng, sc: &Scope, cur: &Pkg, want: &Ty, depth: u32) -> Expr 
                             return Expr::Inherent(ip, ii, Box::new(recv));
                         }
                     }
+                    10 => {
+                        // apply a closure-typed expression (a call returning a closure, a
+                        // closure variable, or a literal)
+                        // (goml cannot apply a closure *literal* directly, so the callee is a
+                        // closure variable or a call returning a closure)
+                        let funs: Vec<&(String, Ty)> = sc.vars.iter().filter(|(_, t)| *t == Ty::Fun).collect();
+                        let f = if !funs.is_empty() && p.chance(1, 2) {
+                            Some(Expr::Var(p.pick(&funs).0.clone()))
+                        } else {
+                            gen_call(p, sc, cur, &Ty::Fun, depth, &vis)
+                        };
+                        if let Some(f) = f {
+                            let a = gen_expr(p, sc, cur, &Ty::Int, depth - 1);
+                            if p.chance(1, 2) {
+                                return Expr::LetApply(Box::new(f), Box::new(a), depth);
+                            }
+                            return Expr::Apply(Box::new(f), Box::new(a));
+                        }
+                    }
+                    11 => {
+                        let mut gens = Vec::new();
+                        for &vp in &vis {
+                            for gi in 0..pkg_of(vp).generics.len() {
+                                gens.push((vp, gi));
+                            }
+                        }
+                        if !gens.is_empty() {
+                            let (gp, gi) = *p.pick(&gens);
+                            let v = gen_expr(p, sc, cur, &Ty::Gen(gp, gi), depth - 1);
+                            return Expr::GenField(Box::new(v));
+                        }
+                    }
                     _ => {}
                 }
             }
             Expr::Lit(p.range(0, 9) as i32)
+        }
+        Ty::Fun => {
+            let same: Vec<&(String, Ty)> = sc.vars.iter().filter(|(_, t)| *t == Ty::Fun).collect();
+            if !same.is_empty() && p.chance(1, 3) {
+                return Expr::Var(p.pick(&same).0.clone());
+            }
+            if depth > 0 && p.chance(2, 3) {
+                if let Some(e) = gen_call(p, sc, cur, want, depth, &vis) {
+                    return e;
+                }
+            }
+            // closure literal; its body may use the enclosing int variables (captured)
+            let mut vars = sc.vars.clone();
+            vars.retain(|(n, _)| n != "q");
+            let sc2 = Scope { proj: sc.proj, pkg: sc.pkg, local_fns: sc.local_fns, vars };
+            let body = gen_expr(p, &sc2, cur, &Ty::Int, depth.saturating_sub(1).min(1));
+            Expr::MkClosure(Box::new(body))
+        }
+        Ty::Gen(gp, gi) => {
+            let same: Vec<&(String, Ty)> = sc.vars.iter().filter(|(_, t)| t == want).collect();
+            if !same.is_empty() && p.chance(1, 2) {
+                return Expr::Var(p.pick(&same).0.clone());
+            }
+            if depth > 0 && p.chance(1, 2) {
+                if let Some(e) = gen_call(p, sc, cur, want, depth, &vis) {
+                    return e;
+                }
+            }
+            let v = gen_expr(p, sc, cur, &Ty::Int, depth.saturating_sub(1));
+            Expr::MkGen(*gp, *gi, Box::new(v))
         }
         Ty::Str => {
             if depth > 0 {
@@ -414,6 +494,7 @@ fn item_name(p: &mut Prng, cfg: &GenCfg, kind: &str, pkg: usize, idx: usize, tak
         "E" => &["Op", "Color", "Shape", "Kind"],
         "T" => &["Show", "Size", "Score"],
         "f" => &["make", "sum", "calc", "pick", "fold", "step"],
+        "G" => &["Boxed", "Wrap", "Slot"],
         _ => &["m"],
     };
     if cfg.collide_names {
@@ -430,6 +511,7 @@ fn item_name(p: &mut Prng, cfg: &GenCfg, kind: &str, pkg: usize, idx: usize, tak
         "S" => format!("S{}{}", &pk[1..], idx),
         "E" => format!("E{}{}", &pk[1..], idx),
         "T" => format!("T{}{}", &pk[1..], idx),
+        "G" => format!("G{}{}", &pk[1..], idx),
         _ => format!("{}_{}{}", kind, &pk[1..], idx),
     };
     let mut n = base.clone();
@@ -489,6 +571,13 @@ pub fn generate(p: &mut Prng, cfg: &GenCfg) -> Project {
                     variants: (0..nv).map(|k| (format!("{}{}", ["A", "B", "C"][k], i), p.usize(3))).collect(),
                     name: en,
                 });
+            }
+            if cfg.generics {
+                let ng = p.usize(2);
+                for i in 0..ng {
+                    let g = item_name(p, cfg, "G", pi, i, &mut taken);
+                    cur.generics.push(g);
+                }
             }
             if cfg.traits {
                 let nt = p.usize(3);
@@ -597,7 +686,19 @@ pub fn generate(p: &mut Prng, cfg: &GenCfg) -> Project {
             let np = p.usize(4);
             let mut params = Vec::new();
             for k in 0..np {
-                let t = match p.below(4) {
+                let t = match p.below(6) {
+                    4 if cfg.generics => {
+                        let mut gs = Vec::new();
+                        for &vp in &vis {
+                            let n = if vp == pi { cur.generics.len() } else { proj.pkgs[vp].generics.len() };
+                            for gi in 0..n {
+                                gs.push(Ty::Gen(vp, gi));
+                            }
+                        }
+                        if gs.is_empty() { Ty::Int } else { p.pick(&gs).clone() }
+                    }
+                    5 if cfg.generics => Ty::Fun,
+                    4 | 5 => Ty::Int,
                     0 | 1 => Ty::Int,
                     2 => {
                         let mut ss = Vec::new();
@@ -622,7 +723,9 @@ pub fn generate(p: &mut Prng, cfg: &GenCfg) -> Project {
                 };
                 params.push((format!("a{k}"), t));
             }
-            let ret = match p.below(8) {
+            let ret = match p.below(10) {
+                8 if cfg.generics => Ty::Fun,
+                9 if cfg.generics && !cur.generics.is_empty() => Ty::Gen(pi, p.usize(cur.generics.len())),
                 0 => Ty::Str,
                 1 => {
                     let n = cur.structs.len();
@@ -706,6 +809,8 @@ impl Project {
             Ty::Str => "string".to_string(),
             Ty::Struct(p, i) => self.q(from, *p, &self.pkgs[*p].structs[*i].name),
             Ty::Enum(p, i) => self.q(from, *p, &self.pkgs[*p].enums[*i].name),
+            Ty::Fun => "(int32) -> int32".to_string(),
+            Ty::Gen(p, i) => format!("{}[int32]", self.q(from, *p, &self.pkgs[*p].generics[*i])),
         }
     }
 
@@ -797,6 +902,26 @@ impl Project {
             }
             Expr::BoundVar => "BOUND".to_string(),
             Expr::ToString(a) => format!("({}).to_string()", self.expr_str(from, a)),
+            Expr::MkClosure(b) => format!("(|q: int32| (q + {}))", self.expr_str(from, b)),
+            Expr::Apply(f, a) => match **f {
+                Expr::Var(_) => format!("{}({})", self.expr_str(from, f), self.expr_str(from, a)),
+                _ => format!("({})({})", self.expr_str(from, f), self.expr_str(from, a)),
+            },
+            // a block with a `let` is only allowed as a branch body, so the binding lives in the
+            // taken branch of a trivially true conditional
+            Expr::LetApply(f, a, tag) => format!(
+                "(if 0 < 1 {{ let fz{tag} = {}; fz{tag}({}) }} else {{ 0 }})",
+                self.expr_str(from, f),
+                self.expr_str(from, a)
+            ),
+            Expr::MkGen(p, g, v) => format!("{} {{ v: {} }}", self.q(from, *p, &self.pkgs[*p].generics[*g]), self.expr_str(from, v)),
+            Expr::GenField(a) => {
+                let inner = self.expr_str(from, a);
+                match **a {
+                    Expr::Var(_) => format!("{inner}.v"),
+                    _ => format!("({inner}).v"),
+                }
+            }
         }
     }
 
@@ -857,6 +982,9 @@ impl Project {
                 })
                 .collect();
             items.push(format!("enum {} {{\n{}}}\n", e.name, vs.join("")));
+        }
+        for g in &pk.generics {
+            items.push(format!("struct {g}[T] {{\n    v: T,\n}}\n"));
         }
         for t in &pk.traits {
             let ms: Vec<String> = t
@@ -983,6 +1111,9 @@ impl Project {
         for e in &pk.enums {
             s.push_str(&format!("enum {} {:?}\n", e.name, e.variants));
         }
+        for g in &pk.generics {
+            s.push_str(&format!("generic struct {g}\n"));
+        }
         for t in &pk.traits {
             s.push_str(&format!("trait {} {:?}\n", t.name, t.methods));
         }
@@ -1022,12 +1153,14 @@ fn noise_str(n: u32) -> String {
 // evaluation (prediction of stdout)
 // ---------------------------------------------------------------------------------------------
 
-#[derive(Clone, Debug, PartialEq)]
+#[derive(Clone, Debug)]
 pub enum Val {
     I(i32),
     S(String),
     St((usize, usize), Vec<Val>),
     En((usize, usize), usize, Vec<Val>),
+    Clo(BTreeMap<String, Val>, Box<Expr>),
+    Gen(Box<Val>),
 }
 
 impl Project {
@@ -1130,6 +1263,19 @@ impl Project {
                 self.eval(&self.pkgs[*p].inherents[*ii].body, &env2, fuel)?
             }
             Expr::BoundVar => return None,
+            Expr::MkClosure(b) => Val::Clo(env.clone(), b.clone()),
+            Expr::Apply(f, a) | Expr::LetApply(f, a, _) => {
+                let fv = self.eval(f, env, fuel)?;
+                let Val::I(x) = self.eval(a, env, fuel)? else { return None };
+                let Val::Clo(cenv, body) = fv else { return None };
+                let Val::I(b) = self.eval(&body, &cenv, fuel)? else { return None };
+                Val::I(x.wrapping_add(b))
+            }
+            Expr::MkGen(_, _, v) => Val::Gen(Box::new(self.eval(v, env, fuel)?)),
+            Expr::GenField(a) => {
+                let Val::Gen(v) = self.eval(a, env, fuel)? else { return None };
+                *v
+            }
             Expr::ToString(a) => {
                 let Val::St((sp, si), vals) = self.eval(a, env, fuel)? else { return None };
                 let sd = &self.pkgs[sp].structs[si];
@@ -1200,6 +1346,8 @@ fn expr_uses_tostring(proj: &Project, e: &Expr, depth: u32) -> bool {
                 })
         }
         Expr::Inherent(p, ii, r) => rec(r) || rec(&proj.pkgs[*p].inherents[*ii].body),
+        Expr::MkClosure(b) | Expr::GenField(b) | Expr::MkGen(_, _, b) => rec(b),
+        Expr::Apply(f, a) | Expr::LetApply(f, a, _) => rec(f) || rec(a),
     }
 }
 
@@ -1294,6 +1442,11 @@ fn map_expr(e: &mut Expr, f: &mut dyn FnMut(&mut Expr)) {
             map_expr(d, f);
         }
         Expr::TraitCall(_, _, r, _) | Expr::Inherent(_, _, r) => map_expr(r, f),
+        Expr::MkClosure(b) | Expr::GenField(b) | Expr::MkGen(_, _, b) => map_expr(b, f),
+        Expr::Apply(g, a) | Expr::LetApply(g, a, _) => {
+            map_expr(g, f);
+            map_expr(a, f);
+        }
         Expr::Lit(_) | Expr::StrLit(_) | Expr::Var(_) | Expr::BoundVar => {}
     }
     f(e);
